@@ -34,8 +34,9 @@ def holder(sc):
     return cm
 
 
-def end_to_end(sc, which, cond):
-    """on-axis sensor duplicating off-axis sensor `which` of a three-sensor system built by the real covariance builder"""
+def end_to_end(sc, which, cond, threads=1, mixed=False):
+    """on-axis sensor duplicating off-axis sensor `which` of a three-sensor system built by the real covariance builder
+    (optionally by its multi-process path, optionally with a different wavelength per off-axis sensor)"""
     n = 4
     yy, xx = np.indices((n, n))
     ring = ((xx - 1.5) ** 2 + (yy - 1.5) ** 2 <= 4.1).astype(float)
@@ -44,8 +45,10 @@ def end_to_end(sc, which, cond):
     masks = [ring] * 4
     pos = [off_pos[which]] + off_pos
     alt = [off_alt[which]] + off_alt
-    cm = sc.CovarianceMatrix(4, np.array(masks), 4.0, np.array([1.0] * 4), np.array(alt), np.array(pos), np.array([600e-9] * 4),
-                             2, np.array([0.0, 7000.0]), np.array([0.2, 0.35]), np.array([25.0, 30.0]))
+    off_wl = [500e-9, 900e-9, 1650e-9] if mixed else [600e-9] * 3
+    wl = [off_wl[which]] + off_wl
+    cm = sc.CovarianceMatrix(4, np.array(masks), 4.0, np.array([1.0] * 4), np.array(alt), np.array(pos), np.array(wl),
+                             2, np.array([0.0, 7000.0]), np.array([0.2, 0.35]), np.array([25.0, 30.0]), threads=threads)
     cm.make_covariance_matrix()
     R = np.asarray(cm.make_tomographic_reconstructor(cond), float)
     ns = int(ring.sum())
@@ -107,6 +110,24 @@ def run(run):
             if res2 > 1e-5 or Rsi != Ri:
                 run.violation("reconstructor:ill-conditioned-offaxis-block", dict(case=c, residual=res2, got=Rsi, expected=Ri),
                               dict(kind="case", case=c, prev=prev))
+        # an off-axis slope that carries nothing (zero variance, zero covariance: a dead sub-aperture): C_off,off is exactly
+        # singular, the minimum-variance estimator of conditioning 0 is the same integer matrix on the live slopes (the weight of the dead one is immaterial)
+        if k % 4 == 0:
+            n_tot = C.shape[0]
+            pos_dead = 2 * non + (k // 4) % (m + 1)
+            keepi = [i for i in range(n_tot + 1) if i != pos_dead]
+            Cd = np.zeros((n_tot + 1, n_tot + 1))
+            Cd[np.ix_(keepi, keepi)] = keep
+            try:
+                Rd = np.asarray(sc.create_tomographic_covariance_reconstructor(Cd.copy(), non, 0), float)
+                live = [i - 2 * non for i in keepi if i >= 2 * non]
+                okd = Rd.shape == (2 * non, m + 1) and np.all(np.isfinite(Rd)) and \
+                    np.allclose(Rd[:, live], np.asarray(Ri, float), rtol=0, atol=1e-6)       # (any finite weight on the dead slope gives the same variance)
+            except np.linalg.LinAlgError as e:
+                okd, Rd = False, repr(e)
+            if not okd:
+                run.violation("reconstructor:dead-offaxis-slope(singular-block,conditioning-0)", dict(case=c, dead=pos_dead, got=np.asarray(Rd).tolist() if not isinstance(Rd, str) else Rd),
+                              dict(kind="dead", case=c, dead=pos_dead))
         trace.append(dict(id=k, non=non, dup=c["dup"], C=c["C"], R=Ri))
         meta[k] = c
         prev = c
@@ -155,10 +176,13 @@ def run(run):
     # ---- auxiliary: end to end through the covariance builder, rebuilds on one object with the geometry changed in between
     e2e = []
     for which in (0, 1, 2):
-        dev, cmo = end_to_end(sc, which, 0.0)
-        e2e.append(dict(duplicate_of=which, max_dev=dev))
-        if dev > 1e-3:
-            run.violation("reconstructor:end-to-end-duplicate-sensor", dict(duplicate_of=which, max_dev=dev), dict(kind="e2e", which=which))
+        for threads, mixed in ((1, False), (1, True), (2, True), (3, False)):
+            dev, cmo = end_to_end(sc, which, 0.0, threads, mixed)
+            e2e.append(dict(duplicate_of=which, threads=threads, mixed_wavelengths=mixed, max_dev=dev))
+            if not dev <= 1e-3:
+                run.violation("reconstructor:end-to-end-duplicate-sensor" + (":multiprocess-build" if threads > 1 else "")
+                              + (":mixed-wavelengths" if mixed else ""), dict(duplicate_of=which, max_dev=dev),
+                              dict(kind="e2e", which=which, threads=threads, mixed=mixed))
     # same object, science direction moved onto another off-axis sensor, same conditioning: the reconstructor must follow
     dev0, cmo = end_to_end(sc, 0, 0.01)
     gp = np.array(cmo.gs_positions, dtype=float)
@@ -200,7 +224,23 @@ def replay(run, case):
         if not np.array_equal(C, keep) or R1.shape != on_off.shape or not np.allclose(R1.dot(off), on_off, atol=1e-8) \
                 or not np.allclose(R1, R2, atol=1e-9):
             run.violation("reconstructor:normal-equations", dict(case=c), case)
+    elif k == "dead":
+        c = case["case"]
+        C = np.array(c["C"], dtype=float)
+        non, n_tot = c["non"], C.shape[0]
+        keepi = [i for i in range(n_tot + 1) if i != case["dead"]]
+        Cd = np.zeros((n_tot + 1, n_tot + 1))
+        Cd[np.ix_(keepi, keepi)] = C
+        R0 = np.asarray(sc.create_tomographic_covariance_reconstructor(C.copy(), non, 0), float)
+        try:
+            Rd = np.asarray(sc.create_tomographic_covariance_reconstructor(Cd, non, 0), float)
+            live = [i - 2 * non for i in keepi if i >= 2 * non]
+            ok = np.all(np.isfinite(Rd)) and np.allclose(Rd[:, live], R0, rtol=0, atol=1e-6)
+        except np.linalg.LinAlgError:
+            ok = False
+        if not ok:
+            run.violation("reconstructor:dead-offaxis-slope(singular-block,conditioning-0)", dict(case=c), case)
     elif k == "e2e":
-        dev, _ = end_to_end(sc, case["which"], 0.0)
-        if dev > 1e-3:
+        dev, _ = end_to_end(sc, case["which"], 0.0, case.get("threads", 1), case.get("mixed", False))
+        if not dev <= 1e-3:
             run.violation("reconstructor:end-to-end-duplicate-sensor", dict(max_dev=dev), case)
